@@ -159,8 +159,15 @@ def check(ctx):
     else:
         single, pipes = gen(ctx)
     envc = [] if ctx.replay else gen_env(ctx)
-    cases = [("sh", a) for a in single] + [("shp", st) for st in pipes] + [("she", ec) for ec in envc]
-    def req(kind, c):
+    # printed while being built, extended with args(), printed again (every 7th vector with at least two words)
+    staged = [] if ctx.replay else [(1 + (i % max(1, len(a) - 1)), a) for i, a in enumerate(single) if len(a) >= 2 and i % 7 == 0]
+    cases = ([("sh", a) for a in single] + [("shp", st) for st in pipes] + [("she", ec) for ec in envc]
+             + [("sha", st) for st in staged])
+    def req(kind, c, for_model=False):
+        if kind == "sha":
+            k, argv = c
+            # the model is asked about the finished command: how it was built must not matter
+            return ("sh " if for_model else f"sha {k} ") + " ".join(hx(a) for a in argv)
         if kind == "she":
             env, argv = c
             return "she " + ",".join(f"{hx(k)}:{hx(v)}" for k, v in env) + " " + " ".join(hx(a) for a in argv)
@@ -171,7 +178,7 @@ def check(ctx):
     impl = subprocess.run([hplain, "sh"], input=text.encode(), stdout=subprocess.PIPE).stdout.decode().splitlines()
     # environment overrides are outside the Lean renderer model (its shell-side specification refuses an unquoted `=`):
     # those cases are judged by the real sh only
-    model_text = "".join(req(k, c) + "\n" for k, c in cases if k != "she")
+    model_text = "".join(req(k, c, True) + "\n" for k, c in cases if k != "she")
     model_it = iter(ctx.run_driver(model_text))
     model = [None if k == "she" else next(model_it, "missing") for k, c in cases]
     if len(impl) != len(cases) or "missing" in model:
@@ -203,6 +210,8 @@ def check(ctx):
                 reqs.append(f"words {alt}"); meta.append(("words", c, alt))
             else:
                 reqs.append(f"cmds {shdir} {alt}"); meta.append(("cmds", c, alt))
+        if k == "sha":
+            k, c = "sh", c[1]
         if k == "she":
             # the assignments must stay assignments: sh has to start the program itself, with its arguments
             if link(c[1][0]):
